@@ -43,6 +43,7 @@ class EvalContext(metaclass=NamespaceableMeta):
                 node = self._cfgobj[key]
                 return self._eval_ctx.evaluate_node(node, self._path + [key])
 
+            self._eval_ctx._reusing_evaluated(self._path + [key])
             return super().__getitem__(key)
 
         def __getattr__(self, name):
@@ -87,6 +88,11 @@ class EvalContext(metaclass=NamespaceableMeta):
 
         self._require_all_safe = False
         self._eval_stack = []
+        # bookkeeping of already evaluated nodes which are unsafe or whose evaluation involved something unsafe,
+        # needed because values taken from the caches below are not (re-)checked node by node
+        self._unsafe_evaluated = set()
+        self._unsafe_evaluated_id = set()
+        self._unsafe_counter = 0
 
         self.user_data = None
 
@@ -115,9 +121,22 @@ class EvalContext(metaclass=NamespaceableMeta):
         finally:
             self._require_all_safe = old
 
+    def _reusing_evaluated(self, path=None, node=None):
+        ''' Should be called whenever an already evaluated value is about to be reused (as opposed to evaluating a node).
+            If the value is unsafe (or depends on anything unsafe) raises ``UnsafeError`` in contexts which require everything
+            to be safe, otherwise makes sure the node(s) currently being evaluated are remembered as depending on something unsafe.
+        '''
+        if (path is not None and str(path) in self._unsafe_evaluated) or (node is not None and id(node) in self._unsafe_evaluated_id):
+            if self._require_all_safe:
+                if node is None and self._cfg is not None:
+                    node = self._cfg.ayns.get_node(path, incomplete=None)
+                raise errors.UnsafeError(f'Note: the current context requires all evaluated nodes to be safe but an already evaluated unsafe value was requested', node, str(path) if path is not None else None)
+            self._unsafe_counter += 1
+
     def get_node(self, *path, **kwargs):
         path = NodePath.get_list_path(*path)
         if str(path) in self._eval_cache:
+            self._reusing_evaluated(path)
             return self._eval_cache[str(path)]
         return self.cfg.ayns.get_node(path, **kwargs)
 
@@ -134,6 +153,7 @@ class EvalContext(metaclass=NamespaceableMeta):
                 raise errors.UnsafeError(f'Note: the current context requires all evaluated nodes to be safe - see chained exceptions for more information', cfgobj, str(prefix))
 
         if id(cfgobj) in self._eval_cache_id:
+            self._reusing_evaluated(node=cfgobj)
             return self._eval_cache_id[id(cfgobj)]
 
         evaluated_parent = None
@@ -145,12 +165,18 @@ class EvalContext(metaclass=NamespaceableMeta):
 
             evaluated_parent = enode
 
+        unsafe_counter = self._unsafe_counter
         evaluated_cfgobj = cfgobj.ayns.on_evaluate(prefix, self)
         if evaluated_parent is not None:
             evaluated_parent[prefix[-1]] = evaluated_cfgobj
 
         self._eval_cache[str(prefix)] = evaluated_cfgobj
         self._eval_cache_id[utils.persistent_id(cfgobj)] = evaluated_cfgobj
+        if not cfgobj.ayns.safe:
+            self._unsafe_counter += 1
+        if self._unsafe_counter != unsafe_counter:
+            self._unsafe_evaluated.add(str(prefix))
+            self._unsafe_evaluated_id.add(utils.persistent_id(cfgobj))
         self._eval_stack.pop()
         return evaluated_cfgobj
 
@@ -167,6 +193,8 @@ class EvalContext(metaclass=NamespaceableMeta):
         self._ecfg = EvalContext.PartialChild(NodePath(), self, self._cfg)
         self._eval_cache.clear()
         self._eval_cache_id.clear()
+        self._unsafe_evaluated.clear()
+        self._unsafe_evaluated_id.clear()
         self.user_data = Bunch()
 
         try:
@@ -174,6 +202,8 @@ class EvalContext(metaclass=NamespaceableMeta):
         finally:
             self._eval_cache.clear()
             self._eval_cache_id.clear()
+            self._unsafe_evaluated.clear()
+            self._unsafe_evaluated_id.clear()
             self._cfg = None
             self._ecfg = None
 
